@@ -1579,6 +1579,9 @@ class Frame(object):
             if fname in ('hashes.Hash',) and args:
                 record(fname)
                 return Hasher(render(args[0]))
+            if fname == 'itertools.chain' and args and not kwargs and all(isinstance(a, ListV) for a in args):
+                record(fname)
+                return ListV([e for a in args for e in a.elems], 'list')
             # super().m / super(K, self).m
             if isinstance(func.value, ast.Call) and dotted(func.value.func) == 'super':
                 tgt = self._resolve_super(func.value, meth, st)
@@ -1680,6 +1683,9 @@ class Frame(object):
             if n in ('iter', 'list', 'tuple') and len(args) == 1 and isinstance(args[0], EachV) and not kwargs:
                 record(n)
                 return args[0]
+            if n in ('iter', 'list', 'tuple') and len(args) == 1 and isinstance(args[0], ListV) and not kwargs:
+                record(n)
+                return ListV(list(args[0].elems), 'tuple' if n == 'tuple' else 'list')
             if n == 'reversed' and len(args) == 1 and isinstance(args[0], ListV):
                 rev = []
                 for e in reversed(args[0].elems):
@@ -1711,6 +1717,9 @@ class Frame(object):
         at = self._argtext(args, kwargs)
         base = render(recv)
         # transparent wrappers: bytes(x) etc. are handled elsewhere; here a few text-preserving methods
+        if '%s.%s(%s)' % (base, meth, at) in self.sc.unroll:
+            # scenario fact: this collection has exactly these elements (also when it is not directly a loop's iterable)
+            return ListV(list(self.sc.unroll['%s.%s(%s)' % (base, meth, at)]), 'list')
         if meth == '__bytearray__' or meth == '__bytes__':
             return Bytes([('SYM', '%s.__bytearray__()' % base)])
         if meth == 'hasher' and not args:
@@ -1812,6 +1821,10 @@ class Frame(object):
         rets = [(s, status) for s, status in outs if status in ('return', 'normal')]
         if not rets:
             return Sym('<raises %s>' % fi.qualname)
+        if len(rets) == 1 and any(isinstance(n, (ast.Yield, ast.YieldFrom)) for n in _preorder(fi.node)) and \
+                not any(isinstance(y, Sym) and y.text.startswith(('EACH(', 'ALT(', '*')) for y in rets[0][0].yields):
+            # calling a generator function whose yields are all enumerated: the value is the sequence it produces
+            return ListV(list(rets[0][0].yields), 'list')
         vals = []
         for s, status in rets:
             v = s.ret if status == 'return' else Const(None)
